@@ -66,6 +66,7 @@ struct OpSlot {
     obj: Option<Box<dyn Pollable>>,
     /// address of the `Data` box (== user_data & !1)
     state_addr: Option<usize>,
+    state_block: Option<u64>,
     user_data: Option<u64>,
     /// user_data while a submission of this operation is published / in flight
     ud_inflight: Option<u64>,
@@ -104,7 +105,8 @@ struct LifeCase {
     feats: Vec<String>,
     ring_dropped: bool,
     lost_at_drop: usize,
-    case_kinds: Vec<String>,
+    /// a use-after-free was detected: stop calling into a10 for this case
+    poisoned: bool,
 }
 
 const KINDS: &[&str] = &["read", "write", "sendzc", "mread"];
@@ -164,7 +166,7 @@ impl LifeCase {
             feats: Vec::new(),
             ring_dropped: false,
             lost_at_drop: 0,
-            case_kinds: Vec::new(),
+            poisoned: false,
         }
     }
 
@@ -234,6 +236,13 @@ impl LifeCase {
 
     fn collect_frees(&mut self) -> Vec<usize> {
         let mut v = Vec::new();
+        for b in track::drain_double_frees() {
+            let who = self.ops.iter().position(|o| o.state_block == Some(b.id));
+            match who {
+                Some(i) => self.fail("C06", "C06/double-free", format!("state of op{i} freed twice (use after free)")),
+                None => self.fail("C06", "C06/double-free-resources", format!("a resource buffer ({} bytes) was freed twice", b.size)),
+            }
+        }
         for b in track::drain_frees() {
             if let Some(i) = self.addr2op.get(&b.base).copied() {
                 let i = &i;
@@ -264,6 +273,32 @@ impl LifeCase {
                 _ => {}
             }
         }
+    }
+
+    /// C01/C06: every completion a10 is about to process must belong to a
+    /// live operation state (it dereferences `user_data`). Returns false if a
+    /// stale one was found (the call into a10 is then skipped: it would
+    /// corrupt memory or hang on a freed mutex).
+    fn completions_safe(&mut self) -> bool {
+        let cqes: Vec<simk::Cqe> = simk::with_ring(self.rfd, |r, _| {
+            let mut v = r.cq_pending();
+            v.extend(r.overflow.iter().map(|(_, c)| *c));
+            v
+        });
+        let mut ok = true;
+        for c in cqes {
+            if c.user_data <= 3 || c.flags & simk::CQE_F_SKIP != 0 {
+                continue;
+            }
+            let addr = (c.user_data & !1) as usize;
+            let live = track::block_of(addr);
+            let owner = self.ops.iter().position(|o| o.state_addr == Some(addr) && o.state_block.is_some() && live.map(|b| b.id) == o.state_block);
+            if owner.is_none() {
+                ok = false;
+                self.fail("C01", "C01/state-freed-before-final-cqe", format!("a completion for operation state {addr:#x} is pending, but that state has already been freed"));
+            }
+        }
+        ok
     }
 
     fn note_wakes(&mut self, wakes: &[u32]) {
@@ -374,7 +409,7 @@ fn list<T: std::fmt::Display>(v: &[T]) -> String {
 
 impl Case for LifeCase {
     fn next_op(&mut self, rng: &mut Rng) -> Option<String> {
-        if self.steps_left == 0 {
+        if self.steps_left == 0 || self.poisoned {
             return None;
         }
         self.steps_left -= 1;
@@ -444,6 +479,9 @@ impl Case for LifeCase {
     fn exec(&mut self, op: &str) -> Vec<String> {
         let t: Vec<&str> = op.split(' ').collect();
         let mut out = Vec::new();
+        if self.poisoned {
+            return vec!["unsafe-state".into()];
+        }
         match t.as_slice() {
             ["life", "new", i, kind] => {
                 let Ok(i) = i.parse::<usize>() else { return vec!["bad-op".into()] };
@@ -455,7 +493,7 @@ impl Case for LifeCase {
                 let (obj, state): (Box<dyn Pollable>, Option<usize>) = match *kind {
                     "read" => {
                         let buf: Vec<u8> = Vec::with_capacity(64);
-                        res_blocks.extend(track::block_of(buf.as_ptr() as usize).map(|b| b.id));
+                        res_blocks.extend(track::watch(buf.as_ptr() as usize).map(|b| b.id));
                         let mark = track::next_id();
                         let fut = fd.read(buf);
                         let st = single_new_block(mark);
@@ -463,7 +501,7 @@ impl Case for LifeCase {
                     }
                     "write" => {
                         let buf: Vec<u8> = vec![0x5A; 64];
-                        res_blocks.extend(track::block_of(buf.as_ptr() as usize).map(|b| b.id));
+                        res_blocks.extend(track::watch(buf.as_ptr() as usize).map(|b| b.id));
                         let mark = track::next_id();
                         let fut = fd.write(buf);
                         let st = single_new_block(mark);
@@ -471,7 +509,7 @@ impl Case for LifeCase {
                     }
                     "sendzc" => {
                         let buf: Vec<u8> = vec![0x7E; 64];
-                        res_blocks.extend(track::block_of(buf.as_ptr() as usize).map(|b| b.id));
+                        res_blocks.extend(track::watch(buf.as_ptr() as usize).map(|b| b.id));
                         let mark = track::next_id();
                         let fut = fd.send(buf).zc();
                         let st = single_new_block(mark);
@@ -487,6 +525,7 @@ impl Case for LifeCase {
                 };
                 // NOTE: the pinned box of the future itself is allocated after `mark`
                 // too; `single_new_block` ran before `Box::pin`.
+                let state_block = state.and_then(|a| track::block_of(a)).map(|b| b.id);
                 if let Some(a) = state {
                     track::watch(a);
                     self.addr2op.insert(a, i);
@@ -496,6 +535,7 @@ impl Case for LifeCase {
                     multi: *kind == "mread",
                     obj: Some(obj),
                     state_addr: state,
+                    state_block,
                     user_data: None,
                     ud_inflight: None,
                     res_blocks,
@@ -650,6 +690,10 @@ impl Case for LifeCase {
                         ps.push((a, b, c));
                     }
                 }
+                if !self.completions_safe() {
+                    self.poisoned = true;
+                    return vec!["unsafe-state".into()];
+                }
                 let will_enter = simk::with_ring(self.rfd, |r, _| r.cq_count() == 0);
                 let mut scripted: Vec<(usize, i32, u32, u64)> = Vec::new();
                 if will_enter {
@@ -705,7 +749,14 @@ impl Case for LifeCase {
                 self.check_wakeups();
             }
             ["life", "rdrop"] => {
-                let Some(ring) = self.ring.take() else { return vec!["bad-op".into()] };
+                if self.ring.is_none() {
+                    return vec!["bad-op".into()];
+                }
+                if !self.completions_safe() {
+                    self.poisoned = true;
+                    return vec!["unsafe-state".into()];
+                }
+                let ring = self.ring.take().unwrap();
                 let r = util::catch(move || drop(ring));
                 self.ring_dropped = true;
                 let evs = simk::with_sim(|s| s.events.clone());
@@ -737,6 +788,22 @@ impl Case for LifeCase {
 
     fn finish(&mut self) -> CaseReport {
         // Clean up: drop every future, the ring, the pool and the descriptor.
+        if self.poisoned || !self.completions_safe() {
+            // Memory is in an unsafe state: leak everything rather than run a10 code on it.
+            for o in self.ops.iter_mut() {
+                std::mem::forget(o.obj.take());
+            }
+            std::mem::forget(self.ring.take());
+            std::mem::forget(self.pool.take());
+            std::mem::forget(self.sq.take());
+            simk::drain_events();
+            util::drain_wakes();
+            track::drain_frees();
+            simk::deactivate();
+            simk::with_sim(|s| { let fds: Vec<i32> = s.rings.keys().copied().collect(); for fd in fds { std::mem::forget(s.rings.remove(&fd)); } });
+            let features = std::mem::take(&mut self.feats);
+            return CaseReport { oracle: std::mem::take(&mut self.oracle), features, nontrivial: true };
+        }
         let started_after_drop: Vec<bool> = self.ops.iter().map(|o| o.started_after_rdrop).collect();
         for i in 0..self.ops.len() {
             if let Some(obj) = self.ops[i].obj.take() {
@@ -777,6 +844,7 @@ impl Case for LifeCase {
         util::drain_wakes();
         track::drain_frees();
         simk::reset();
+        track::release_quarantine();
         let mut features = std::mem::take(&mut self.feats);
         features.sort();
         features.dedup();
